@@ -196,9 +196,13 @@ func (o *ordersim) relocated(p *projgen.Project, salt uint64) string {
 	if _, err := os.Stat(dst); err == nil {
 		return dst
 	}
-	os.MkdirAll(filepath.Dir(dst), 0o755)
-	if out, err := run("/", nil, "cp", "-r", src, dst); err != nil {
-		harnessFail("relocate: %v %s", err, out)
+	// rendered again rather than copied: other workers create and delete per-run files in src concurrently
+	_ = src
+	if err := p.Render(dst); err != nil {
+		harnessFail("relocate: %v", err)
+	}
+	if sum, err := os.ReadFile(filepath.Join(repoDir, "go.sum")); err == nil {
+		os.WriteFile(filepath.Join(dst, "go.sum"), sum, 0o644)
 	}
 	rng := projgen.Stream(salt, "mtimes", 0)
 	filepath.WalkDir(dst, func(path string, d fs.DirEntry, err error) error {
